@@ -339,7 +339,7 @@ def optimize_kl(likelihood_energy,
             energy_history = _pickle_load_values(last_finished_index, 'energy_history')
         # No resume
         else:
-            check_MPI_synced_random_state(comm(iglobal))
+            check_MPI_synced_random_state(comm(initial_index))
             if _MPI_master(comm(initial_index)):
                 _save_random_state()
 
